@@ -296,6 +296,8 @@ struct Model {
     pending_rollback: Vec<Option<u64>>,
     /// the submission's poller is waiting for its interval timer
     sleeping: Vec<bool>,
+    /// the submission was told Evicted / Unknown and has not re-broadcast yet
+    expect_rebroadcast: Vec<bool>,
     finished: Vec<bool>,
     viol: Vec<(String, String)>,
     trace: Vec<String>,
@@ -409,6 +411,7 @@ async fn execute(cfg: &Config, seed: u64, ch: &mut Chooser, keep: bool) -> Run {
         phase: vec![Phase::Signing; total],
         pending_rollback: vec![None; total],
         sleeping: vec![false; total],
+        expect_rebroadcast: vec![false; total],
         finished: vec![false; total],
         viol: vec![],
         trace: vec![],
@@ -447,7 +450,13 @@ async fn execute(cfg: &Config, seed: u64, ch: &mut Chooser, keep: bool) -> Run {
                         let d = match decode_tx(&tx_bytes, &vk) {
                             Ok(d) if d.sub < total => d,
                             other => {
-                                m.violation("undecodable-request", format!("broadcast tx: {other:?}"));
+                                // bytes that are not a transaction of ours: if a re-broadcast is due,
+                                // they are a re-broadcast that differs from the accepted transaction
+                                if let Some(sub) = (0..total).find(|s| m.expect_rebroadcast[*s]) {
+                                    m.violation("evicted-tx-resigned", format!("submission {sub} was due to re-broadcast its accepted transaction, but the node received different bytes ({other:?})"));
+                                } else {
+                                    m.violation("undecodable-request", format!("broadcast tx: {other:?}"));
+                                }
                                 continue;
                             }
                         };
@@ -476,6 +485,7 @@ async fn execute(cfg: &Config, seed: u64, ch: &mut Chooser, keep: bool) -> Run {
                             }
                             Phase::Confirming { tx, sequence, .. } => {
                                 count(&EV_REBROADCAST, keep);
+                                m.expect_rebroadcast[d.sub] = false;
                                 m.trace.push(format!("rebroadcast sub{} seq{}", d.sub, d.sequence));
                                 if tx != tx_bytes {
                                     m.violation(
@@ -644,6 +654,7 @@ async fn execute(cfg: &Config, seed: u64, ch: &mut Chooser, keep: bool) -> Run {
                 m.trace.push(format!("answer status sub{sub} {a:?}"));
                 match a {
                     SAns::Pending => m.sleeping[sub] = true,
+                    SAns::Evicted | SAns::Unknown => m.expect_rebroadcast[sub] = true,
                     SAns::RejectedOther => {
                         if let Phase::Confirming { sequence, .. } = &m.phase[sub] {
                             m.pending_rollback[sub] = Some(*sequence);
@@ -739,28 +750,30 @@ fn main() {
         let (f, t) = (false, true);
         let cfgs: Vec<Config> = if q {
             vec![
-                c(&[f], &[f], true, 4),
-                c(&[t], &[f], true, 3),
-                c(&[f], &[t], false, 3),
-                c(&[t], &[t], false, 3),
-                c(&[f, f], &[f, f], false, 3),
-                c(&[t, f], &[f, t], false, 2),
-                c(&[f, f, f], &[f, f, f], false, 2),
-                c(&[f, t, f], &[t, f, f], false, 2),
-            ]
-        } else {
-            vec![
                 c(&[f], &[f], true, 5),
                 c(&[t], &[f], true, 4),
                 c(&[f], &[t], true, 4),
                 c(&[t], &[t], true, 4),
                 c(&[f, f], &[f, f], true, 3),
-                c(&[f, f], &[f, f], false, 4),
                 c(&[f, f], &[t, f], false, 3),
                 c(&[t, f], &[f, t], false, 3),
                 c(&[t, t], &[f, f], false, 3),
                 c(&[f, f, f], &[f, f, f], false, 3),
                 c(&[f, t, f], &[t, f, f], false, 3),
+            ]
+        } else {
+            vec![
+                c(&[f], &[f], true, 6),
+                c(&[t], &[f], true, 5),
+                c(&[f], &[t], true, 5),
+                c(&[t], &[t], true, 5),
+                c(&[f, f], &[f, f], true, 4),
+                c(&[f, f], &[f, f], false, 5),
+                c(&[f, f], &[t, f], false, 4),
+                c(&[t, f], &[f, t], false, 4),
+                c(&[t, t], &[f, f], false, 4),
+                c(&[f, f, f], &[f, f, f], false, 4),
+                c(&[f, t, f], &[t, f, f], false, 4),
             ]
         };
         let total_cap = Duration::from_secs(if q { 50 } else { 840 });
